@@ -17,6 +17,13 @@
   * the modelled dispatcher and correction logic are total functions into
     explicit outcomes: `bulk_step_total`, `correct_total` (no third outcome)
   * `wrapError_documented`   every error that goes through gobl.wrapError carries a documented key
+  * the error the command line prints (`cliPresent` = cli.WrapError, what cmd/gobl
+    `printError` encodes since /repo 585d2c1, cac3c9e):
+      `cli_error_structured`        whatever error ends the program, the printed object has a code,
+                                    a key / message / fields, and no undocumented key
+      `cli_usage_error_shape`       an unknown command or flag, an unreadable file: code 400, the text as message
+      `cli_encoding_failure_shape`  a result that cannot be encoded: code 422, key `marshal`, the text as message
+      `cli_error_code`, `cli_lib_error_keeps_key`, `cli_present_idem`, `cli_members_allowed`, `cli_never_bare`
   * `Expect.*`                over the keys regenerated from errors.go / internal/cli/errors.go
 
   Every panic the harness finds on the unchanged tree is a listed known
@@ -140,7 +147,108 @@ theorem wrapError_documented (e : ErrKind)
   | validationErrors => decide
   | other => decide
 
+/-! ## the error the command line prints -/
+
+open GoblVerif.Spec.C14 GoblVerif.Generated.Errors
+
+/-- whatever error ends the program, what is printed is structured: a code,
+    at least one of key / message / fields, and a key that is documented if
+    there is one (formerly `{}` for usage errors and the raw
+    `json.MarshalerError` struct for an encoding failure: known findings
+    `c14.clierr:empty:usage`, `c14.clierr:empty`) -/
+theorem cli_error_structured (e : CliErrIn) (h : e.WellFormed documentedKeys) :
+    structured documentedKeys (cliPresent e).shown = true := by
+  cases e with
+  | structured e' => exact h
+  | lib k f m =>
+    have hk : k ∈ documentedKeys := h
+    have hne : k ≠ "" := by
+      intro h0; subst h0; revert hk; decide
+    simp [cliPresent, cliWrapError, CliError.shown, structured, statusBadRequest, hne, hk]
+  | encoding t =>
+    have ht : t ≠ "" := h
+    simp [cliPresent, cliWrapError, CliError.shown, structured, statusUnprocessableEntity, marshalKey]
+    decide
+  | plain t =>
+    have ht : t ≠ "" := h
+    simp [cliPresent, cliWrapError, CliError.shown, structured, statusBadRequest, ht]
+
+/-- a refusal of the request itself (unknown command or flag, unreadable
+    input or key file) is a bad request that carries the text of the error -/
+theorem cli_usage_error_shape (t : String) (h : t ≠ "") :
+    usageShape (cliPresent (.plain t)).shown = true ∧ (cliPresent (.plain t)).message = t ∧
+      (cliPresent (.plain t)).key = "" := by
+  simp [cliPresent, cliWrapError, CliError.shown, usageShape, statusBadRequest, h]
+
+/-- a result that cannot be encoded is reported under the library's key for
+    that, with code 422 and the text of the encoder's error -/
+theorem cli_encoding_failure_shape (t : String) (h : t ≠ "") :
+    encodingShape (cliPresent (.encoding t)).shown = true ∧ (cliPresent (.encoding t)).message = t ∧
+      (cliPresent (.encoding t)).key ∈ documentedKeys := by
+  refine ⟨?_, rfl, ?_⟩
+  · simp [cliPresent, cliWrapError, CliError.shown, encodingShape, statusUnprocessableEntity, marshalKey, h]
+  · simp [cliPresent, cliWrapError, marshalKey]; decide
+
+/-- the code of an error that was not structured already is 422 exactly for
+    an encoding failure and 400 otherwise -/
+theorem cli_error_code (e : CliErrIn) (h : ∀ e', e ≠ .structured e') :
+    ((∃ t, e = .encoding t) → (cliPresent e).code = 422) ∧
+    ((∀ t, e ≠ .encoding t) → (cliPresent e).code = 400) := by
+  cases e with
+  | structured e' => exact absurd rfl (h e')
+  | lib k f m => simp [cliPresent, cliWrapError, statusBadRequest]
+  | encoding t => simp [cliPresent, cliWrapError, statusUnprocessableEntity]
+  | plain t => simp [cliPresent, cliWrapError, statusBadRequest]
+
+/-- an error of the library that reaches `main` unwrapped keeps key, fields and message -/
+theorem cli_lib_error_keeps_key (k : String) (f : Bool) (m : String) :
+    cliPresent (.lib k f m) = ⟨400, k, f, m⟩ := rfl
+
+/-- presenting what was presented changes nothing (`errors.As` finds the `*cli.Error`) -/
+theorem cli_present_idem (e : CliErrIn) : cliPresent (.structured (cliPresent e)) = cliPresent e := rfl
+
+/-- the printed object has a `code` and only members of the `cli.Error` struct -/
+theorem cli_members_allowed (e : CliErrIn) :
+    "code" ∈ (cliPresent e).members ∧ ∀ m ∈ (cliPresent e).members, m ∈ cliErrorJSONMembers := by
+  constructor
+  · simp [CliError.members]
+  · intro m hm
+    simp only [CliError.members, List.mem_append, List.mem_singleton] at hm
+    have : cliErrorJSONMembers = ["code", "key", "fields", "message"] := by decide
+    rw [this]
+    rcases hm with ((rfl | hm) | hm) | hm
+    · simp
+    · split at hm <;> simp_all
+    · split at hm <;> simp_all
+    · split at hm <;> simp_all
+
+/-- the printed object is never the bare `{"code":…}` (nor `{}`): something says what went wrong -/
+theorem cli_never_bare (e : CliErrIn) (h : e.WellFormed documentedKeys) :
+    (cliPresent e).members ≠ ["code"] := by
+  have hs := cli_error_structured e h
+  generalize cliPresent e = p at hs
+  obtain ⟨c, k, f, m⟩ := p
+  simp only [structured, CliError.shown, Bool.and_eq_true, Bool.or_eq_true, bne_iff_ne, ne_eq] at hs
+  obtain ⟨⟨_, hany⟩, _⟩ := hs
+  simp only [CliError.members]
+  rcases hany with (hk | hm) | hf
+  · simp [hk]
+  · simp [hm]
+  · simp [hf]
+
 /-! ## non-vacuity -/
+example : (CliErrIn.plain "unknown command \"nonsense\" for \"gobl\"").WellFormed documentedKeys := by
+  simp [CliErrIn.WellFormed]
+example : cliPresent (.plain "open /no/such/file: no such file or directory") =
+    ⟨400, "", false, "open /no/such/file: no such file or directory"⟩ := rfl
+example : (cliPresent (.plain "unknown flag: --no-such-flag")).members = ["code", "message"] := by decide
+example : cliPresent (.encoding "json: error calling MarshalJSON for type *schema.Object: …") =
+    ⟨422, "marshal", false, "json: error calling MarshalJSON for type *schema.Object: …"⟩ := rfl
+example : (cliPresent (.encoding "json: unsupported type: func()")).members = ["code", "key", "message"] := by decide
+example : (CliErrIn.structured ⟨422, "no-document", false, ""⟩).WellFormed documentedKeys := by
+  simp [CliErrIn.WellFormed]; decide
+example : (CliErrIn.lib "signature" false "no key").WellFormed documentedKeys := by
+  simp [CliErrIn.WellFormed]; decide
 example : NoNullRows [some 1, some 2] := by intro r hr; simp at hr; rcases hr with rfl | rfl <;> simp
 example : eachDeref "bill.(*Line).Normalize" (· + 1) [some 1, none, some 3] = .panic "bill.(*Line).Normalize" := by decide
 example : eachGuarded (· + 1) [some 1, none, some 3] = .ok [some 2, none, some 4] := by decide
@@ -164,6 +272,43 @@ theorem model_keys : errorVars.lookup "ErrUnknownSchema" = some (wrapError .unkn
     errorVars.lookup "ErrInternal" = some (wrapError .other) := by decide
 theorem error_json_members : errorJSONMembers = ["key", "fields", "message"] := by decide
 theorem cli_error_json_members : cliErrorJSONMembers = ["code", "key", "fields", "message"] := by decide
+/-- the specification's members are those of the struct -/
+theorem spec_members : GoblVerif.Spec.C14.allowedMembers = cliErrorJSONMembers := by decide
+
+/-! ### the error the command line prints: cmd/gobl main, cli.WrapError, cli.wrapError -/
+
+/-- `main` prints the error and exits with status 1 -/
+theorem main_as_modelled : calls_main_main = ["run", "printError", "Exit"] ∧
+    mainExitCodes = [toString cliExitCode] := by decide
+/-- what is handed to the JSON encoder is `cli.WrapError(err)`, never the error
+    value itself (the former `enc.Encode(err)` printed `{}` or the exported
+    fields of whatever struct the error was) -/
+theorem main_prints_wrapped_error : calls_main_printError = ["writeError"] ∧
+    mainErrorEncodes = ["cli.WrapError(err)"] ∧
+    conds_main_writeError = ["err = enc.Encode(cli.WrapError(err)); err != nil"] := by decide
+theorem cli_status_codes : cliStatusCodes.lookup "StatusBadRequest" = some statusBadRequest ∧
+    cliStatusCodes.lookup "StatusUnprocessableEntity" = some statusUnprocessableEntity := by decide
+/-- cli.WrapError: nil, the `*cli.Error` found by errors.As, an encoding failure
+    under ErrMarshal with 422, anything else through wrapError with 400 -/
+theorem cli_WrapError_as_modelled :
+    conds_cli_WrapError = ["err == nil", "errors.As(err, &e)", "isEncodingError(err)"] ∧
+    stmts_cli_WrapError = ["return nil", "return e",
+      "return wrapError(StatusUnprocessableEntity, gobl.ErrMarshal.WithCause(err))",
+      "return wrapError(StatusBadRequest, err)"] ∧
+    types_cli_WrapError = ["var *Error"] := by decide
+/-- the three errors with which encoding/json refuses a value -/
+theorem cli_encoding_errors_as_modelled :
+    types_cli_isEncodingError = ["var *json.MarshalerError", "var *json.UnsupportedTypeError", "var *json.UnsupportedValueError"] ∧
+    stmts_cli_isEncodingError = ["return errors.As(err, &me) || errors.As(err, &te) || errors.As(err, &ve)"] := by decide
+/-- cli.wrapError: a `*cli.Error` as it is; a `*gobl.Error` gives key, fields, message; anything else its text -/
+theorem cli_wrapError_as_modelled :
+    conds_cli_wrapError = ["e, ok := err.(*Error); ok"] ∧
+    types_cli_wrapError = ["case *gobl.Error", "default"] ∧
+    stmts_cli_wrapError = ["e, ok := err.(*Error)", "return e", "out := new(Error)", "out.Code = code",
+      "e := err.(type)", "out.Key = e.Key()", "out.Fields = e.Fields()", "out.Message = e.Message()",
+      "out.Message = e.Error()", "return out"] := by decide
+/-- the key of the model's encoding failure is ErrMarshal's -/
+theorem model_marshal_key : errorVars.lookup "ErrMarshal" = some marshalKey := by decide
 
 end Expect
 
